@@ -5,8 +5,8 @@ rows=[]
 for d in sorted(glob.glob('/verif/seeded/*/meta.json')):
     m=json.load(open(d)); rows.append((m['name'],m['breaks_property'],m['needs_to_manifest'],m['caught_by']))
 s=open('/verif/DESIGN.md').read()
-start=s.index('### 8.4 Detection matrix (seeded changes)')
-new='''### 8.4 Detection matrix (seeded changes)
+start=s.index('### 8.5 Detection matrix (seeded changes)')
+new='''### 8.5 Detection matrix (seeded changes)
 
 Fresh sub-agents were each given only the text of one property and a scratch worktree and asked for
 a change that breaks the property, still compiles, passes the pinned suite and needs something
